@@ -411,6 +411,9 @@ func (g *gen) emitC05(defs []*Def, domain bool) {
 			}
 			for _, codec := range codecsOf(d.Opts) {
 				lines := append([]string{hdr + " " + codec}, defLines...)
+				// Values()/StringValues() first: the probe mutates the returned slices in place
+				// (caller-owned), every later answer must be unaffected
+				lines = append(lines, "gn values "+td.Name, "gn strvals "+td.Name)
 				lines = append(lines, "gn marshal "+td.Name+" "+codec+" "+defined, "gn rt "+td.Name+" "+codec+" "+defined)
 				if codec != "text" {
 					lines = append(lines, "gn rtf "+td.Name+" "+codec+" "+defined)
@@ -487,6 +490,8 @@ func (g *gen) emitC05(defs []*Def, domain bool) {
 					lines = append(lines, "gn dec "+td.Name+" "+codec+" "+doc)
 					g.nParse++
 				}
+				lines = append(lines, "gn strvals "+td.Name, "gn values "+td.Name, "gn str "+td.Name+" "+defined, "gn valid "+td.Name+" "+defined,
+					"gn marshal "+td.Name+" "+codec+" "+defined)
 				tags := []string{"codec:" + codec, "opts:" + d.Opts, "kind:" + td.Kind, fmt.Sprintf("cols:%d", len(td.Cols))}
 				np := 0
 				for _, c := range td.Cols {
@@ -586,6 +591,7 @@ func (g *gen) emitC12(defs []*Def, domain bool) {
 					lines = append(lines, "gn parse "+td.Name+" "+hexOf(it.Name))
 				}
 			}
+			lines = append(lines, "gn values "+td.Name, "gn strvals "+td.Name, "gn str "+td.Name+" "+definedList(consts))
 			g.r.Add(hx.Case{Lines: lines, Domain: domain, Nontrivial: true, Tags: tags})
 			// decode-by-trait, per parsable column; families without a decoder branch under their own key
 			prim := primaryOf(d, td.Name)
